@@ -41,7 +41,7 @@ def guarded_values(P, body, S, p, blk, idx, depth=0):
         if dj == -1:
             t = b["t"]
             name = callee_of(t)
-            if want is None and (name.endswith("bool::then") or name.endswith("bool::then_some") or "bool>::then" in name) and len(t["args"]) == 2:
+            if want is None and name.rsplit("::", 1)[-1] in ("then", "then_some") and "bool" in name and len(t["args"]) == 2:
                 n = len(b["s"])
                 c = S.operand(t["args"][0], db, n)
                 pol = True
